@@ -95,6 +95,7 @@ func main() {
 	maxFork := flag.Int("maxfork", 64, "max values a symbolic index/length may fork over")
 	preempt := flag.Int("preempt", 0, "max preemptions at synchronisation points per path")
 	budget := flag.Duration("budget", 0, "wall-clock budget for exploration")
+	raceLog := flag.Bool("race", false, "log heap accesses with lock sets and report race candidates")
 	noPanics := flag.Bool("nopanics", false, "do not report Go run-time panics as violations")
 	flag.BoolVar(&bvMode, "bv", false, "bit-vector encoding instead of Int")
 	flag.BoolVar(&noSpec, "nospec", false, "disable if-conversion")
@@ -197,7 +198,7 @@ func main() {
 		ex.deadline = time.Now().Add(*budget)
 	}
 	mc := &Config{Prop: *prop, Params: pm, Stubs: stubs, HarnessPkg: hp, Module: module, MaxSteps: *maxSteps,
-		MaxFork: *maxFork, Preempt: *preempt, CheckPanics: !*noPanics}
+		MaxFork: *maxFork, Preempt: *preempt, CheckPanics: !*noPanics, RaceLog: *raceLog}
 	t1 := time.Now()
 	var wg sync.WaitGroup
 	for w := 0; w < *workers; w++ {
